@@ -1,8 +1,9 @@
 import GoCrypt.Props.KdfProps
-import GoCrypt.Props.C11
+import GoCrypt.Props.C11Core
 import GoCrypt.Props.C16
 import GoCrypt.Props.C17
 import GoCrypt.Props.KdfIR
+import GoCrypt.Props.ParseFlow
 
 /-!
 # C05 — no input makes an exported function panic or hang
@@ -46,4 +47,8 @@ namespace GoCrypt.C05
 #print axioms GoCrypt.KdfIR.duplicate_ir_eq_model
 #print axioms GoCrypt.KdfIR.permute_ir_eq_model
 #print axioms GoCrypt.KdfIR.sha1_ir_eq_model
+-- the regenerated parser never panics and always terminates
+#print axioms GoCrypt.ParseFlow.parseFlow_never_panics
+#print axioms GoCrypt.ParseFlow.parseFlow_terminates
+#print axioms GoCrypt.ParseFlow.parseFlow_returns
 end GoCrypt.C05
